@@ -265,6 +265,76 @@ class Body:
             path.append(first[path[-1]])
         return list(reversed(path))
 
+    def find_path_cp(self, starts, goals, avoid=()):
+        """find_path with propagation of constants assigned to whole locals (`_x = const`, `_y = copy/move _x`):
+        a switch on a local whose value is known follows only the matching edge.  Resolves the `matches!(..)` /
+        `let ok = match .. {A => true, _ => false}; if ok {..}` idiom that plain path search over-approximates."""
+        avoid, goals = set(avoid), set(goals)
+
+        def step(bb, env):
+            env = dict(env)
+            for st in self.stmts(bb):
+                if st.get("k") != "assign":
+                    continue
+                p = st["p"]
+                if len(p) != 1:
+                    if p and p[0] in env:
+                        env.pop(p[0], None)
+                    continue
+                rv = st["rv"]
+                val = None
+                if rv["r"] == "use":
+                    o = rv["o"]
+                    if o[0] == "k" and isinstance(o[1], dict) and o[1].get("v") is not None and "fn" not in o[1]:
+                        try:
+                            v = o[1]["v"]
+                            val = {"true": 1, "false": 0}.get(str(v), None)
+                            if val is None:
+                                val = int(v)
+                        except (TypeError, ValueError):
+                            val = None
+                    elif o[0] != "k" and len(o[1]) == 1 and o[1][0] in env:
+                        val = env[o[1][0]]
+                if val is None:
+                    env.pop(p[0], None)
+                else:
+                    env[p[0]] = val
+            t = self.term(bb)
+            if t["t"] == "call" and t.get("d") and len(t["d"]) >= 1:
+                env.pop(t["d"][0], None)
+            if t["t"] == "switch" and t["o"][0] != "k" and len(t["o"][1]) == 1 and t["o"][1][0] in env:
+                v = env[t["o"][1][0]]
+                nxt = [tb for val, tb in t["targets"] if str(val) == str(v)] or [t["otherwise"]]
+            else:
+                nxt = list(self.succ[bb])
+            return nxt, frozenset(env.items())
+
+        seen = {}
+        dq = deque()
+        for s0 in starts:
+            if s0 in avoid:
+                continue
+            st = (s0, frozenset())
+            seen[st] = None
+            dq.append(st)
+        while dq:
+            cur = dq.popleft()
+            bb, env = cur
+            if bb in goals:
+                path = [cur]
+                while seen[path[-1]] is not None:
+                    path.append(seen[path[-1]])
+                return [x[0] for x in reversed(path)]
+            nxt, env2 = step(bb, env)
+            for n in nxt:
+                if n in avoid:
+                    continue
+                st = (n, env2)
+                if st not in seen and len(seen) < 20000:
+                    seen[st] = cur
+                    dq.append(st)
+        return None
+
     @property
     def reachable(self):
         if self._reach_entry is None:
